@@ -1,2 +1,7 @@
 import GoframeModel.Props.C20
-#print axioms Goframe.C20.nrows_any_column
+#print axioms Goframe.C20.no_panic
+#print axioms Goframe.C20.invalid_is_err
+#print axioms Goframe.C20.err_unchanged
+#print axioms Goframe.C20.counts_total
+#print axioms Goframe.C20.pinned_head_panics
+#print axioms Goframe.C20.pinned_sort_missing_panics
